@@ -63,6 +63,8 @@ def resolve_runs(P, tier):
           R('resolve-base-authority', 'h_resolve.c', P + RES_CB, 'base with every authority shape (user info none/empty/1 char, host reg-name/IPv4/IPv6/IPvFuture, port none/empty/1 digit), reference [scheme] path<=1 seg [?query]', RESCOV + ['ref-has-scheme'], 400),
           R('resolve-mixed', 'h_resolve.c', P + RES_CM, 'base scheme [//host] path<=1 [?q]; reference [scheme] [//host] path<=1 [?q] [#f]; 1-char segments', RESCOV + ['ref-has-scheme', 'ref-has-authority'], 600),
           R('resolve-schemes', 'h_resolve.c', P + ['KB=0', 'KR=1', 'SEGL=1', 'BFLAGS=(G_SCHEME_REQ|G_SCHEME2|G_AUTH)', 'RFLAGS=(G_SCHEME_OPT|G_SCHEME2)'], 'schemes of one or two symbolic letters on both sides (equal, prefix of each other, different), both option values', ['ref-has-scheme', 'ref-merged'], 300),
+          R('resolve-len2', 'h_resolve.c', P + ['KB=0', 'KR=1', 'SEGL=1', 'GEN_COMP_L=2', 'BFLAGS=(G_SCHEME_REQ|G_SCHEME2|G_AUTH_REQ|G_USERINFO|G_PORT)', 'RFLAGS=(G_QUERY|G_FRAG)'], 'base: scheme of 1..2 letters, authority with user info / port of 0..2 characters; reference: <=1 segment [?query of <=2] [#fragment of <=2]', RESCOV, 600),
+          R('resolve-ref-len2', 'h_resolve.c', P + ['KB=0', 'KR=0', 'SEGL=1', 'GEN_COMP_L=2', 'BFLAGS=(G_SCHEME_REQ|G_AUTH|G_QUERY)', 'RFLAGS=(G_SCHEME_OPT|G_SCHEME2|G_AUTH_REQ|G_USERINFO|G_PORT|G_QUERY)'], 'reference with scheme of 0..2 letters and an authority with user info / port / query of 0..2 characters; base scheme [//host] [?query of <=2]', ['ref-has-authority', 'ref-has-scheme'], 600),
           R('resolve-relative-base', 'h_resolve.c', P + RES_REL, 'base with or without scheme (error code for relative base)', ['relative-base'], 300)]
     if tier == 'thorough':
         rs += [R('resolve-paths-3', 'h_resolve.c', P + ['KB=2', 'KR=3', 'SEGL=2'] + RES_PATH, 'as resolve-paths with references of <=3 segments', RESCOV, 1500),
@@ -108,6 +110,7 @@ def shorten_runs(P, tier):
           R('shorten-colon', 'h_shorten.c', P + ['KS=2', 'KB=2', 'SEGL=2', 'GEN_PATH_COLON', 'SFLAGS=(G_SCHEME_REQ|G_AUTH_REQ)', 'BFLAGS=(G_SCHEME_REQ|G_AUTH_REQ)'], 'S and B: scheme //host <=2 segments of <=2 chars over [a-z.:]; both modes', ['same-authority-relative'], 600),
           R('shorten-hostkinds', 'h_shorten.c', P + (['KS=1', 'KB=1'] if tier == 'thorough' else ['KS=0', 'KB=0']) + ['SEGL=1', 'SFLAGS=(G_SCHEME_REQ|G_AUTH_REQ|G_HOSTKINDS)', 'BFLAGS=(G_SCHEME_REQ|G_AUTH_REQ|G_HOSTKINDS)'], 'S and B with every host kind (reg-name, IPv4, IPv6, IPvFuture; symbolic digits), no path (thorough: <=1 segment)', ['same-authority-relative', 'schemes-differ'], 2400 if tier == 'thorough' else 600),
           R('shorten-query', 'h_shorten.c', P + ['KS=1', 'KB=1', 'SEGL=1', 'SFLAGS=(G_SCHEME_REQ|G_AUTH|G_QUERY|G_FRAG)', 'BFLAGS=(G_SCHEME_REQ|G_AUTH|G_QUERY)'], 'S: scheme [//host] <=1 segment [?q] [#f], B: scheme [//host] <=1 segment [?q] (equal and different queries, empty paths); both modes', ['same-authority-relative', 'schemes-differ'], 600),
+          R('shorten-authority-len2', 'h_shorten.c', P + ['KS=0', 'KB=0', 'SEGL=1', 'GEN_COMP_L=2', 'SFLAGS=(G_SCHEME_REQ|G_AUTH_REQ|G_USERINFO|G_PORT)', 'BFLAGS=(G_SCHEME_REQ|G_AUTH_REQ|G_USERINFO|G_PORT)'], 'S and B with user info none/empty/1..2 chars, reg-name of 1..2 chars, port none/empty/1..2 digits (one a prefix of the other), no path', ['same-authority-relative'], 600),
           R('shorten-nonabsolute', 'h_shorten.c', P + ['KS=1', 'KB=1', 'SEGL=1', 'SFLAGS=(G_SCHEME_OPT|G_AUTH)', 'BFLAGS=(G_SCHEME_OPT|G_AUTH)'], 'S or B without scheme (error codes)', ['non-absolute-rejected'], 300)]
     if tier == 'thorough':
         rs.append(R('shorten-paths-3', 'h_shorten.c', P + ['KS=3', 'KB=3', 'SEGL=1', 'GEN_PATH_COLON', 'SFLAGS=(G_SCHEME_REQ|G_AUTH|G_QUERY)', 'BFLAGS=(G_SCHEME_REQ|G_AUTH|G_QUERY)'], '<=3 segments over [a-z.:], optional queries', ['same-authority-relative'], 7200))
@@ -146,6 +149,8 @@ SPECS['C07'] = {'runs': {
               R('shorten-colon', 'h_shorten.c', ['P_C07', 'KS=2', 'KB=2', 'SEGL=2', 'GEN_PATH_COLON', 'SFLAGS=(G_SCHEME_REQ|G_AUTH_REQ)', 'BFLAGS=(G_SCHEME_REQ|G_AUTH_REQ)'], 'created references, <=2 segments of <=2 chars over [a-z.:]', ['same-authority-relative'], 600),
               R('normalize', 'h_norm.c', ['P_C07'] + NORM_DOTS, 'normalised URIs (dots config of C08), masks {0, PATH, all, required}, borrowed and owned', ['owned-in-place', 'borrowed-copying'], 600),
               R('shorten', 'h_shorten.c', ['P_C07'] + SHORT, 'created references (paths config of C10)', ['same-authority-relative'], 600),
+              R('chain3', 'h_shorten.c', ['P_C07', 'CHAIN3', 'KS=3', 'KB=1', 'SEGL=1', 'GEN_PATH_COLON', 'SFLAGS=(G_SCHEME_REQ|G_AUTH_REQ)', 'BFLAGS=(G_SCHEME_REQ|G_AUTH_REQ)'], 'three-operation histories: normalise(source, in place) -> create reference against a base -> resolve it again; source <=3 one-character segments over [a-z.:], base <=1 segment, authority on both sides', ['source-produced', 'third-operation'], 600, kf_of='C10'),
+              R('make-owner-len2', 'h_owner.c', ['P_C07', 'KO=1', 'SEGL=2', 'GEN_COMP_L=2', 'OFLAGS=(G_SCHEME_OPT|G_SCHEME2|G_AUTH|G_USERINFO|G_PORT|G_QUERY|G_FRAG)'], 'owned copies with scheme / user info / port / segment / query / fragment of up to 2 characters', ['host-regname'], 600),
               R('make-owner', 'h_owner.c', ['P_C07', 'KO=1'], 'owned copies, every authority shape', ['host-ip4', 'host-ip6', 'host-ipfuture', 'host-regname', 'empty-host'], 600),
               R('chain', 'h_normres.c', ['P_C07', 'KB=1', 'KR=2', 'SEGL=2', 'GEN_PATH_COLON'], 'two-step histories: normalise->resolve->normalise and resolve->normalise on base<=1, reference<=2 segments', ['ref-relative-path'], 600, kf_of='C09')],
     'thorough': [R('parse', 'h_parse.c', ['P_C07', 'NMAX=6'], 'parsed URIs, length 0..6', ['accepted'], 2400),
@@ -161,6 +166,7 @@ SPECS['C07'] = {'runs': {
 # ---------------------------------------------------------------- C12
 SPECS['C12'] = {'runs': {
     'quick': [R('make-owner', 'h_owner.c', ['KO=1'], 'parse -> uriMakeOwner -> source text destroyed; every authority shape (user info, 4 host kinds, empty host, port), path<=1, query, fragment', ['host-ip4', 'host-ip6', 'host-ipfuture', 'host-regname', 'empty-host'], 600),
+              R('make-owner-len2', 'h_owner.c', ['KO=1', 'SEGL=2', 'GEN_COMP_L=2', 'OFLAGS=(G_SCHEME_OPT|G_SCHEME2|G_AUTH|G_USERINFO|G_PORT|G_QUERY|G_FRAG)'], 'as make-owner with a scheme of 1..2 letters and user info, port, segment, query and fragment of 0..2 characters (reg-name hosts)', ['host-regname'], 600),
               R('normalize-kill', 'h_norm.c', ['P_C12'] + NORM_CASE, 'parse -> normalise (non-zero masks) -> source text destroyed; all host kinds', ['source-killed', 'host-ipfuture', 'host-ip4', 'host-ip6'], 600),
               R('normalize-kill-dots', 'h_norm.c', ['P_C12'] + NORM_DOTS, 'same with <=3 segment paths', ['source-killed'], 600),
               R('readonly-inputs', 'h_c20.c', ['NMAX=3'], 'bases, sources, comparison/recomposition/mask-query operands and query lists marked read-only during every call of a mixed workload', ['mixed-workload'], 600)],
